@@ -182,12 +182,13 @@ def build_ocaml(prop):
     return rc, out
 
 
-def build_harness(crate, timeout=3000):
+def build_harness(crate, timeout=3000, binname=None):
     lock_src = os.path.join(REPO, "Cargo.lock")
     lock_dst = os.path.join(HARNESS, "Cargo.lock")
     if not os.path.exists(lock_dst) and os.path.exists(lock_src):
         shutil.copy(lock_src, lock_dst)
-    return sh("cargo build --release --offline -p %s 2>&1 | tail -40" % crate, cwd=HARNESS, timeout=timeout)
+    b = (" --bin %s" % binname) if binname else " --bins"
+    return sh("cargo build --release --offline -p %s%s 2>&1 | tail -40" % (crate, b), cwd=HARNESS, timeout=timeout)
 
 
 def run_sharded(cmd, lines, timeout=1800):
@@ -497,8 +498,9 @@ def check(prop, tier, seed, replay=None):
     ctx = Ctx(prop, tier, seed)
     crate = cfg.get("harness")
     if crate:
-        rc5, o5 = build_harness(crate)
-        ctx.impl_bin = os.path.join(TARGET, "release", crate)
+        binname = cfg.get("harness_bin", prop)
+        rc5, o5 = build_harness(crate, binname=binname)
+        ctx.impl_bin = os.path.join(TARGET, "release", binname)
         if rc5 != 0 or not os.path.exists(ctx.impl_bin) or "error" in o5 and "could not compile" in o5:
             corr_possible = False
             broken.append("harness %s does not build against the current source (hooks on)" % crate)
